@@ -177,6 +177,16 @@ impl Monitor for C15 {
             let mut uu = (*u).clone();
             let range = uu.vs("a", 1, k + 1);
             uu.finalize();
+            // a third of the never-revealed soft candidates are not even LISTED by their package (an
+            // installed version that has left the index); some of those universes list only the
+            // revealed candidates
+            if j >= k && (k + i + j) % 3 == 0 {
+                let keep_only_revealed = (k + j) % 2 == 0;
+                if let Some(cl) = uu.pkgs[0].candidates.as_mut() {
+                    cl.retain(|&s| s != j && (!keep_only_revealed || s < k));
+                }
+                ctx.rep.count("soft-path-problems-with-an-unlisted-soft-candidate");
+            }
             let uu = Rc::new(uu);
             let p = Prob { reqs: vec![Req::Single(range), Req::Single(c.singles[i as usize])], cons: vec![], soft: vec![j] };
             let (_sess, out) = solve_once(&uu, &p, &c.opts);
